@@ -55,6 +55,7 @@ type System struct {
 var logger = log.NewNoopLogger()
 
 func newSystem() *System {
+	cns.VerifSetMsgQueueSize(64)
 	s := &System{}
 	for i := 0; i < nVals; i++ {
 		pk := ed25519.GenPrivKeyFromSecret([]byte(fmt.Sprintf("c31-validator-%d", i)))
@@ -126,9 +127,10 @@ type signRec struct {
 	R     int
 	T     types.SignedMsgType // PrevoteType / PrecommitType / ProposalType
 	Block string              // block hash hex ("" = nil)
-	// snapshot of the signer's lock at signing time (for the protocol-rule monitors)
+	// snapshot of the signer's lock at signing time and verdict of the voting-rule monitors (oracle.go)
 	LockedRound int
 	LockedBlock string
+	Rule        string // "" = justified; otherwise the broken voting rule
 }
 
 type recPV struct {
@@ -168,6 +170,9 @@ func (pv *recPV) record(h int64, r int, t types.SignedMsgType, hash []byte) {
 			rec.LockedBlock = fmt.Sprintf("%X", rs.LockedBlock.Hash())
 		}
 	}
+	if pv.node != nil && pv.node.cs != nil {
+		rec.Rule = pv.node.votingRule(pv.recs, rec)
+	}
 	pv.recs = append(pv.recs, rec)
 }
 
@@ -180,7 +185,9 @@ type Node struct {
 	ticker *cns.VerifTicker
 	pv     *recPV
 	bs     *store.BlockStore
-	calls  int // handler invocations so far (replay cost accounting)
+	calls  int    // handler invocations so far (replay cost accounting)
+	dead   string // panic message of a handler (a real node's receive routine would have died: "CONSENSUS FAILURE")
+	eng    *Engine
 }
 
 func consensusConfig() *cnscfg.ConsensusConfig {
